@@ -53,6 +53,8 @@ MkUnit(i, kd, out) ==
        outlierT  |-> FALSE,
        outlierM  |-> FALSE,
        kind      |-> k,
+       pt        |-> 0,
+       pm        |-> 0,
        pred      |-> out,
        lower     |-> IF WithOutputs THEN <<out>> ELSE <<>>,
        upper     |-> IF WithOutputs THEN <<out + 2>> ELSE <<>> ]
@@ -65,7 +67,7 @@ Init ==
   /\ \E kinds \in [1..NUnits -> KindSpace] :
      \E pol \in Policies, off \in Offices, lv \in LevelLists, bl \in BlockLists :
      \E outs \in [1..NUnits -> 0..(IF WithOutputs THEN 2 ELSE 0)] :
-       sc = [ policy |-> pol, districtOffice |-> off, districtGut |-> off, levels |-> lv, blockStates |-> bl,
+       sc = [ extraRep |-> 0, optT |-> FALSE, optM |-> FALSE, isMargin |-> FALSE, policy |-> pol, districtOffice |-> off, districtGut |-> off, levels |-> lv, blockStates |-> bl,
               nalpha |-> IF WithOutputs THEN 1 ELSE 0, order |-> Order,
               units |-> [i \in 1..NUnits |->
                           LET v == IF kinds[i].k \in {"none0", "absent", "rep0"} THEN 0 ELSE Pow4(i)
